@@ -747,7 +747,7 @@ func gen(c *vh.Ctx) {
 	nRandPerm, nRandTrace := 14, 120
 	if c.Thorough {
 		maxPerm = 7
-		nRandPerm, nRandTrace = 60, 1500
+		nRandPerm, nRandTrace = 20, 1500
 	}
 	var universes []pkig.Family
 	for _, f := range pkig.Families() {
@@ -759,8 +759,8 @@ func gen(c *vh.Ctx) {
 	for ui, f := range universes {
 		specs := f.Specs
 		maxPerm := maxPerm
-		if ui >= len(pkig.Families()) && !c.Thorough {
-			maxPerm = 5 // random universes: 326 prefixes each in the quick tier
+		if ui >= len(pkig.Families()) {
+			maxPerm-- // random universes: 326 prefixes each in the quick tier, 1957 in the thorough tier
 		}
 		if len(specs) > maxPerm-1 {
 			specs = specs[:maxPerm-1]
